@@ -398,6 +398,9 @@ def main():
             printed.add(kf['id'])
             print('KNOWN-FINDING: property=%s %s [%s]' % (a.prop, kf['what'], kf['id']))
     os.makedirs(os.path.join(VERIF, 'replays'), exist_ok=True)
+    if not a.replay:
+        for old in glob.glob(os.path.join(VERIF, 'replays', '%s-%d-*.json' % (a.prop, seed))):
+            os.remove(old)
     n = 0
     for key, v in new_viol:
         path = os.path.join(VERIF, 'replays', '%s-%d-%d.json' % (a.prop, seed, n))
